@@ -528,6 +528,10 @@ Interval<To_Boundary, To_Info>::refine_universal(Relation_Symbol rel,
       if (lt(UPPER, upper(), info(), LOWER, f_lower(x), f_info(x))) {
         return combine(V_EQ, V_EQ);
       }
+      // Nothing is below every element of a set unbounded from below.
+      if (is_boundary_infinity(LOWER, f_lower(x), f_info(x))) {
+        return assign(EMPTY);
+      }
       info().clear_boundary_properties(UPPER);
       Result ru = Boundary_NS::assign(UPPER, upper(), info(),
                                       LOWER, f_lower(x), SCALAR_INFO,
@@ -540,6 +544,9 @@ Interval<To_Boundary, To_Info>::refine_universal(Relation_Symbol rel,
       if (le(UPPER, upper(), info(), LOWER, f_lower(x), f_info(x))) {
         return combine(V_EQ, V_EQ);
       }
+      if (is_boundary_infinity(LOWER, f_lower(x), f_info(x))) {
+        return assign(EMPTY);
+      }
       info().clear_boundary_properties(UPPER);
       Result ru = Boundary_NS::assign(UPPER, upper(), info(),
                                       LOWER, f_lower(x), SCALAR_INFO);
@@ -550,6 +557,10 @@ Interval<To_Boundary, To_Info>::refine_universal(Relation_Symbol rel,
     {
       if (gt(LOWER, lower(), info(), UPPER, f_upper(x), f_info(x))) {
         return combine(V_EQ, V_EQ);
+      }
+      // Nothing is above every element of a set unbounded from above.
+      if (is_boundary_infinity(UPPER, f_upper(x), f_info(x))) {
+        return assign(EMPTY);
       }
       info().clear_boundary_properties(LOWER);
       Result rl = Boundary_NS::assign(LOWER, lower(), info(),
@@ -562,6 +573,9 @@ Interval<To_Boundary, To_Info>::refine_universal(Relation_Symbol rel,
     {
       if (ge(LOWER, lower(), info(), UPPER, f_upper(x), f_info(x))) {
         return combine(V_EQ, V_EQ);
+      }
+      if (is_boundary_infinity(UPPER, f_upper(x), f_info(x))) {
+        return assign(EMPTY);
       }
       info().clear_boundary_properties(LOWER);
       Result rl = Boundary_NS::assign(LOWER, lower(), info(),
